@@ -108,7 +108,7 @@ async fn startup_udp<const N: usize>(config: &ServerConfig<SslConfig>, user_mana
                 // p_s_c
                 peer_msg = rx.recv() => {
                     if let Some((content, peer_addr, client_addr, session)) = peer_msg {
-                        net_map.get(&session.client_session_id); // keep alive
+                        net_map.get(&if config.cipher.is_aead_2022() { session.client_session_id } else { legacy_session_key(client_addr) }); // keep alive
                         let mut dst = BytesMut::new();
                         if let Err(e) = SessionCodec::encode(&codec, (content, peer_addr, session), &mut dst) {
                             error!("[udp] encode failed; error={e}")
@@ -127,7 +127,8 @@ async fn startup_udp<const N: usize>(config: &ServerConfig<SslConfig>, user_mana
                             let mut src = BytesMut::from(&buf[..len]);
                             match SessionCodec::<N>::decode(&codec, &mut src) {
                                 Ok(Some((content, peer_addr, session))) => {
-                                    let key = session.client_session_id;
+                                    // legacy (SIP004) datagrams carry no session id: the client's address identifies its session
+                                    let key = if config.cipher.is_aead_2022() { session.client_session_id } else { legacy_session_key(client_addr) };
                                     // one client's trouble must not stop the service: a failure here costs that datagram only
                                     if let Some(assoc) = net_map.get_mut(&key) {
                                         if let Err(e) = assoc.try_send((content, peer_addr, session)).await {
@@ -135,7 +136,7 @@ async fn startup_udp<const N: usize>(config: &ServerConfig<SslConfig>, user_mana
                                             net_map.remove(&key);
                                         }
                                     } else {
-                                        match UdpAssociateContext::create(&session, client_addr, tx.clone()).await {
+                                        match UdpAssociateContext::create(&session, client_addr, tx.clone(), config.cipher.is_aead_2022()).await {
                                             Ok(assoc) => match assoc.try_send((content, peer_addr, session)).await {
                                                 Ok(_) => {
                                                     net_map.insert(key, assoc);
@@ -165,6 +166,14 @@ async fn startup_udp<const N: usize>(config: &ServerConfig<SslConfig>, user_mana
     }
 }
 
+fn legacy_session_key(client_addr: SocketAddr) -> u64 {
+    use std::hash::Hash;
+    use std::hash::Hasher;
+    let mut hasher = std::collections::hash_map::DefaultHasher::new();
+    client_addr.hash(&mut hasher);
+    hasher.finish()
+}
+
 struct UdpAssociate<const N: usize> {
     task: JoinHandle<()>,
     sender: Sender<(BytesMut, Address, Session<N>)>,
@@ -186,6 +195,7 @@ impl<const N: usize> Drop for UdpAssociate<N> {
 struct UdpAssociateContext<const N: usize> {
     client_session_id: u64,
     client_session_filter: PacketWindowFilter,
+    check_packet_id: bool,
     client_addr: SocketAddr,
     inbound: Sender<(BytesMut, Address, SocketAddr, Session<N>)>,
     outbound: UdpSocket,
@@ -199,6 +209,7 @@ impl<const N: usize> UdpAssociateContext<N> {
         client_session: &Session<N>,
         client_addr: SocketAddr,
         inbound: Sender<(BytesMut, Address, SocketAddr, Session<N>)>,
+        check_packet_id: bool,
     ) -> anyhow::Result<UdpAssociate<N>> {
         let (sender, receiver) = mpsc::channel(1024);
 
@@ -206,6 +217,7 @@ impl<const N: usize> UdpAssociateContext<N> {
         let mut assoc = Self {
             client_session_id: client_session.client_session_id,
             client_session_filter: PacketWindowFilter::new(),
+            check_packet_id,
             client_addr,
             inbound,
             outbound,
@@ -283,7 +295,8 @@ impl<const N: usize> UdpAssociateContext<N> {
     }
 
     fn validate_packet_id(&mut self, packet_id: u64) -> bool {
-        self.client_session_filter.validate_packet_id(packet_id, u64::MAX)
+        // only shadowsocks 2022 packets carry a packet id
+        !self.check_packet_id || self.client_session_filter.validate_packet_id(packet_id, u64::MAX)
     }
 }
 
